@@ -123,7 +123,10 @@ def run(ctx):
             ctx.coverage["obligations"] += 1
             ntyped = len(core.numeric_types(c["flat"]["types"]))
             ctx.count({"t": c["text"], "b": c["budget"]}, nontrivial=ntyped >= 2)
-            if bl is None or len(bl) != len(chunk):
+            if not okc and o.startswith("TIMEOUT"):
+                ctx.coverage["obligations"] -= 1
+                ctx.coverage["validator_time_limit"] = ctx.coverage.get("validator_time_limit", 0) + 1
+            elif bl is None or len(bl) != len(chunk):
                 c["status"] = "coq-error"
                 c["why"] = o[-800:]
                 rejected.append(c)
